@@ -1448,8 +1448,27 @@ fn gen_case(rng: &mut Rng, tier: Tier, index: usize) -> Vec<String> {
         _ => 3,
     };
     let mut sids: Vec<String> = vec![];
+    // single-subscriber cases only: the receiver exists before the catch-up starts and events are published in
+    // between (fewer than the channel holds: buffered and filtered; more: the receiver is lagged at its first poll)
+    let pre = nsubs == 1 && rng.chance(1, 6);
     for si in 0..nsubs {
         let sid = format!("s{si}");
+        if pre {
+            g.pub_all();
+            g.ops.push(format!("sub {sid}"));
+            let k = if rng.chance(1, 2) { rng.range(1, bcap.min(12)) } else { bcap + rng.range(1, 6) };
+            if k <= 40 {
+                g.ops.push(format!("w ins {k}"));
+                g.rows += k;
+                g.sent += k;
+                g.committed = g.sent;
+                if rng.chance(3, 4) {
+                    g.pub_all();
+                } else {
+                    g.pub_k(k / 2 + 1);
+                }
+            }
+        }
         // resume points: anywhere in the retained log, its edges, just outside, beyond the head
         let mode = match rng.below(10) {
             0..=3 => "new".to_string(),
@@ -1472,9 +1491,11 @@ fn gen_case(rng: &mut Rng, tier: Tier, index: usize) -> Vec<String> {
             (_, Some(n)) => g.committed.saturating_sub(n.max(g.pruned)) >= 3,
             _ => false,
         };
-        if holdable && rng.chance(3, 4) {
-            // the pipe may still hold committed events: they must all be published before the release
-            g.ops.push(format!("attach {sid} {mode} hold"));
+        // a receiver that already holds events is only attached with the read held (the buffering task must have
+        // copied them before the reconcile looks at the queue)
+        let (mode, holdable) = if pre && !holdable { ("new".to_string(), g.rows >= 2) } else { (mode, holdable) };
+        if holdable && (pre || rng.chance(3, 4)) {
+                g.ops.push(format!("attach {sid} {mode} hold"));
             g.readers = true;
             let shape = rng.below(8);
             match shape {
@@ -1519,11 +1540,17 @@ fn gen_case(rng: &mut Rng, tier: Tier, index: usize) -> Vec<String> {
                             }
                         }
                     }
-                    // F9 (known): an event delivered from the log must not still be in the pipe at the hand-over
-                    g.pub_all();
+                    // events delivered from the log may still be in the pipe at the hand-over (F9, fixed by cb48448)
+                    if rng.chance(1, 2) {
+                        g.pub_all();
+                    }
                 }
             }
             g.ops.push(format!("release {sid}"));
+            if g.blocked == 0 && rng.chance(1, 2) {
+                g.ops.push(format!("recv {sid}"));
+                g.pub_all();
+            }
             if g.blocked > 0 && rng.chance(1, 2) {
                 g.ops.push("commit".into());
                 g.sent += g.blocked;
@@ -1533,7 +1560,7 @@ fn gen_case(rng: &mut Rng, tier: Tier, index: usize) -> Vec<String> {
                 g.pub_all();
             }
         } else {
-            if g.blocked == 0 {
+            if g.blocked == 0 && rng.chance(1, 2) {
                 g.pub_all();
             }
             g.ops.push(format!("attach {sid} {mode} free"));
